@@ -15,6 +15,7 @@ Definition wf_ev (w : world) (ev : event) : Prop :=
   match ev with
   | EvWrite i => last_index (w_db w) < i
   | EvRound e => incr (last_index (w_db w)) (e_mid e)
+  | EvSilent => True
   end.
 
 Fixpoint wf_evs (w : world) (evs : list event) : Prop :=
@@ -216,7 +217,8 @@ Lemma round_cases w e :
   (w' = w /\ (o = OErrIndex \/ (o = OSkipped /\ last_index (w_db w) <= w_last w))) \/
   (changed w /\ w' = set_db w (w_db w ++ e_mid e) /\ (o = OErrProvide \/ (o = OSkippedID /\ already_there w e) \/ exists d, o = OUploadFailed (last_index (w_db w)) d)) \/
   (changed w /\ o = OUploaded (last_index (w_db w)) (w_db w ++ e_mid e) /\
-   w' = {| w_last := last_index (w_db w); w_db := w_db w ++ e_mid e; w_rid := Some (last_index (w_db w)); w_rdata := w_db w ++ e_mid e |}).
+   w' = {| w_last := last_index (w_db w); w_db := w_db w ++ e_mid e; w_rid := Some (last_index (w_db w)); w_rdata := w_db w ++ e_mid e;
+           w_silent := w_silent w; w_rsilent := w_silent w |}).
 Proof.
   unfold round, changed.
   destruct (e_li_err e); [left; auto|].
@@ -255,7 +257,8 @@ Qed.
 
 Lemma inv_step rid0 rdata0 w ev : inv rid0 rdata0 w -> wf_ev w ev -> inv rid0 rdata0 (step w ev).
 Proof.
-  intros Hi Hw. destruct ev as [i|e]; cbn [step wf_ev] in *.
+  intros Hi Hw. destruct ev as [i|e|]; cbn [step wf_ev] in *.
+  3: { destruct Hi as (Hs & Hle & Ha & Hb). unfold inv. cbn [w_db w_last w_rid w_rdata]. auto. }
   - apply inv_grow; [exact Hi|]. cbn. auto.
   - pose proof (round_cases w e) as H. destruct (round w e) as [[w' o] cs]. cbn [fst].
     destruct H as [(-> & _)|[(Hch & -> & _)|(Hch & _ & ->)]].
@@ -278,7 +281,7 @@ Qed.
 
 (* a fresh uploader next to a database and a storage in any state *)
 Definition fresh (db0 : list N) (rid0 : option N) (rdata0 : content) : world :=
-  {| w_last := 0; w_db := db0; w_rid := rid0; w_rdata := rdata0 |}.
+  {| w_last := 0; w_db := db0; w_rid := rid0; w_rdata := rdata0; w_silent := 0; w_rsilent := 0 |}.
 
 Lemma inv_fresh db0 rid0 rdata0 : incr 0 db0 -> inv rid0 rdata0 (fresh db0 rid0 rdata0).
 Proof.
@@ -338,6 +341,30 @@ Proof.
   rewrite Hdb in Hc. apply in_db_le; assumption.
 Qed.
 
+(* ---- the full property does not hold: a change that does not move the applied index ---- *)
+
+(* the stored object is behind the database: it lacks an indexed change or an unindexed one *)
+Definition behind (w : world) : Prop :=
+  (exists c, In c (w_db w) /\ ~ In c (w_rdata w)) \/ w_rsilent w <> w_silent w.
+
+Definition clean0 := {| e_li_err := false; e_mid := []; e_prov_err := false; e_id_err := false; e_up_fail := false |}.
+
+(* write, successful upload, a change that fsmApply does not count, then any number of clean
+   rounds: each of them skips, and the stored object stays behind the database *)
+Theorem unindexed_change_refuted :
+  exists evs, wf_evs (fresh [] None []) evs /\
+    let w := run (fresh [] None []) evs in
+    forall n, let w' := run w (repeat (EvRound clean0) n) in
+      behind w' /\ snd (fst (round w' clean0)) = OSkipped.
+Proof.
+  exists [EvWrite 2; EvRound clean0; EvSilent]. split; [cbn; repeat split; lia|].
+  cbv zeta. intros n.
+  assert (E : run (run (fresh [] None []) [EvWrite 2; EvRound clean0; EvSilent]) (repeat (EvRound clean0) n)
+              = run (fresh [] None []) [EvWrite 2; EvRound clean0; EvSilent]).
+  { induction n as [|n IH]; [reflexivity|]. cbn [repeat run fold_left] in *. exact IH. }
+  rewrite E. split; [right; vm_compute; discriminate|reflexivity].
+Qed.
+
 (* ---- concrete instances ---- *)
 
 Definition clean := {| e_li_err := false; e_mid := []; e_prov_err := false; e_id_err := false; e_up_fail := false |}.
@@ -346,7 +373,7 @@ Definition failing := {| e_li_err := false; e_mid := []; e_prov_err := false; e_
 
 Example ex_round_racing :
   round (fresh [3; 5] (Some 3) [3]) racing
-  = ({| w_last := 5; w_db := [3; 5; 9; 11]; w_rid := Some 5; w_rdata := [3; 5; 9; 11] |},
+  = ({| w_last := 5; w_db := [3; 5; 9; 11]; w_rid := Some 5; w_rdata := [3; 5; 9; 11]; w_silent := 0; w_rsilent := 0 |},
      OUploaded 5 [3; 5; 9; 11], [CLast; CProvide; CCurID; CUpload 5 [3; 5; 9; 11]]).
 Proof. vm_compute. reflexivity. Qed.
 
